@@ -263,8 +263,11 @@ Qed.
 
 Lemma parse_declaration_c D F p g p' : parse_declaration F p = POk (g, p') -> cinv D p -> cinv D p'.
 Proof.
-  unfold parse_declaration. intros H Hc. eapply declaration_loop_c; [exact H|].
-  apply cinv_set_buf; [exact Hc|]. constructor; [apply Hc|constructor].
+  unfold parse_declaration. cbv zeta. intros H Hc. eapply declaration_loop_c; [exact H|].
+  assert (Hc0 : cinv D (set_buf p [(ptt p, pdata p)])).
+  { apply cinv_set_buf; [exact Hc|]. constructor; [apply Hc|constructor]. }
+  destruct (is_t _ TLeftBracket); [|exact Hc0].
+  eapply cinv_fields; [| | | |exact Hc0]; reflexivity.
 Qed.
 
 Lemma firstn_skipn_app {A} (L : list A) : forall x y, firstn x L ++ firstn y (skipn x L) = firstn (x + y) L.
